@@ -31,6 +31,7 @@ TOP = ("_parse_translation_unit_or_empty", ())
 DIALECT_MACROS = {"__STDC_VERSION__", "__STRICT_ANSI__", "__GNUC_GNU_INLINE__", "__GNUC_STDC_INLINE__", "__STDC_UTF_16__", "__STDC_UTF_32__",
                   "linux", "unix", "i386", "__cplusplus", "__STDC_HOSTED__", "__STDC_IEC_559__", "_GNU_SOURCE", "_ISOC99_SOURCE", "_ISOC11_SOURCE"}
 GNU_ONLY = {"linux", "unix", "i386"}     # predefined (as 1) only when the dialect is a GNU one: an identifier with this spelling disappears
+TYPE_TOKENS = {"VOID", "_BOOL", "CHAR", "SHORT", "INT", "LONG", "FLOAT", "DOUBLE", "_COMPLEX", "SIGNED", "UNSIGNED", "__INT128", "STRUCT", "UNION", "ENUM", "TYPEID", "_ATOMIC"}
 KNOWN_DIRECTIVES = {"pragma"}            # passed through by cpp; the lexer model handles '#pragma' lines
 
 
@@ -204,6 +205,9 @@ class Walker:
                                       "(the grammar model accepts the declaration only with that identifier classified as a type)", rel, line))
             else:
                 self.problems.append(("R-C19.4", f"rejected:{rel}:{text[:50]}", f"{rel}:{line}: the grammar model extracted from the parser rejects `{text[:80]}` (token types: {' '.join(types)[:120]})", rel, line))
+            return
+        if toks[0][0] == "TYPEDEF" and not (set(types) & TYPE_TOKENS):
+            self.problems.append(("R-C19.4", f"typedef-without-type:{rel}:{text[:40]}", f"{rel}:{line}: `{text[:80]}` has no type specifier (the parser rejects it with 'Missing type in declaration')", rel, line))
             return
         if toks[0][0] == "TYPEDEF":
             names = _declared_names([(types[i], toks[i][1]) for i in range(len(toks))])
@@ -459,6 +463,15 @@ def _check_pipeline(ctx):
     ctx.oblige("R-C19.8", "text is bound once per branch", ok)
     if not ok:
         ctx.violation("R-C19.8", "text-rebound", "parse_file transforms the text between preprocessing and parsing", file=mod.rel, function="parse_file")
+    # the parameters reach preprocess_file / parse() as given: none of them is re-bound on the way
+    rebound = sorted({t.id for n in ast.walk(pfile) if isinstance(n, (ast.Assign, ast.AugAssign, ast.AnnAssign, ast.NamedExpr))
+                      for t in (n.targets if isinstance(n, ast.Assign) else [n.target]) for t in ([t] if isinstance(t, ast.Name) else [e for e in ast.walk(t) if isinstance(e, ast.Name) and isinstance(e.ctx, ast.Store)])
+                      if t.id in ("filename", "cpp_path", "cpp_args", "use_cpp", "encoding")})
+    ok = not rebound
+    ctx.oblige("R-C19.8", "filename / cpp_path / cpp_args are passed on as given", ok)
+    if not ok:
+        ctx.violation("R-C19.8", f"param-rebound:{','.join(rebound)}", f"parse_file re-binds its parameter(s) {rebound} before handing them to cpp / the parser: the file name recorded in coordinates and line markers (or the cpp command) differs from what "
+                      "preprocess_file + CParser().parse(text, filename) by hand produce", file=mod.rel, function="parse_file")
     dflt = [n for n in pfile.body if isinstance(n, ast.If) and S.unparse(n.test) in ("parser is None", "not parser")]
     ok = len(dflt) == 1 and [S.unparse(s) for s in dflt[0].body] == ["parser = CParser()"]
     ctx.oblige("R-C19.8", "default parser is a fresh CParser()", ok)
